@@ -28,6 +28,8 @@ The order is preserved, regardless of runtime of pipeline between in1 -> out1
 and in2 -> out2
 */
 
+import "github.com/bmeg/grip/verifhook"
+
 var QueueSize = 50
 
 type ChannelMux struct {
@@ -40,6 +42,7 @@ type ChannelMux struct {
 func runMux(m *ChannelMux) {
 	for n := range m.messageOrder {
 		t := <-m.outputs[n]
+		verifhook.Point("mux.run")
 		m.outChannel <- t
 	}
 	close(m.outChannel)
